@@ -86,6 +86,21 @@ impl<T: ?Sized> Mutex<T> {
         }
         MutexGuard { m: self }
     }
+    /// Timed variants (parking_lot's `try_lock_for` / `try_*_for` / `try_*_until`): the attempt is
+    /// repeated, yielding to the scheduler in between, until it succeeds or the VIRTUAL clock has
+    /// passed the deadline (time only passes when a harness advances it).
+    pub fn try_lock_for(&self, d: std::time::Duration) -> Option<MutexGuard<'_, T>> {
+        let deadline = crate::world::now_ns() + d.as_nanos();
+        loop {
+            if let Some(g) = self.try_lock() {
+                return Some(g);
+            }
+            if crate::world::now_ns() >= deadline {
+                return None;
+            }
+            crate::thread::yield_now();
+        }
+    }
     pub fn try_lock(&self) -> Option<MutexGuard<'_, T>> {
         if self.loud {
             kernel::point();
@@ -289,6 +304,30 @@ impl<T: ?Sized> RwLock<T> {
             kernel::block();
         }
         RwLockWriteGuard { l: self }
+    }
+    pub fn try_write_for(&self, d: std::time::Duration) -> Option<RwLockWriteGuard<'_, T>> {
+        let deadline = crate::world::now_ns() + d.as_nanos();
+        loop {
+            if let Some(g) = self.try_write() {
+                return Some(g);
+            }
+            if crate::world::now_ns() >= deadline {
+                return None;
+            }
+            crate::thread::yield_now();
+        }
+    }
+    pub fn try_read_for(&self, d: std::time::Duration) -> Option<RwLockReadGuard<'_, T>> {
+        let deadline = crate::world::now_ns() + d.as_nanos();
+        loop {
+            if let Some(g) = self.try_read() {
+                return Some(g);
+            }
+            if crate::world::now_ns() >= deadline {
+                return None;
+            }
+            crate::thread::yield_now();
+        }
     }
     pub fn try_write(&self) -> Option<RwLockWriteGuard<'_, T>> {
         if self.loud {
